@@ -153,6 +153,8 @@ class Ctx:
         except (_StopCase, HarnessError):
             raise
         except Exception as e:  # noqa: BLE001 - the contract is "yields a result"
+            if isinstance(e, CaseTimeout):
+                _disarm()
             self.fail(f"exc:{what}:{type(e).__name__}", _short_tb(e))
             raise _StopCase()
 
@@ -218,6 +220,16 @@ def _alarm(signum, frame):
     raise CaseTimeout("no result within the per-case watchdog limit")
 
 
+def _disarm():
+    """Stop the re-firing watchdog (called as soon as a CaseTimeout has been caught by the harness)."""
+    try:
+        import signal
+
+        signal.setitimer(signal.ITIMER_REAL, 0)
+    except (ValueError, AttributeError):
+        pass
+
+
 def run_case(sub: Sub, case, tier: str) -> Ctx:
     import signal
 
@@ -230,7 +242,14 @@ def run_case(sub: Sub, case, tier: str) -> Ctx:
     except (ValueError, AttributeError):  # not the main thread / no SIGALRM: run without the watchdog
         pass
     try:
-        return _run_case(sub, case, tier)
+        try:
+            return _run_case(sub, case, tier)
+        except CaseTimeout as e:  # fired outside every handler (e.g. while a handler was unwinding)
+            _disarm()
+            ctx = Ctx(sub.name, tier)
+            ctx.touched = True
+            ctx.fail("exc:case:CaseTimeout", _short_tb(e))
+            return ctx
     finally:
         if armed:
             signal.setitimer(signal.ITIMER_REAL, 0)
@@ -246,6 +265,9 @@ def _run_case(sub: Sub, case, tier: str) -> Ctx:
     except HarnessError:
         raise
     except Exception as e:  # noqa: BLE001
+        if isinstance(e, CaseTimeout):
+            _disarm()
+            ctx.touched = True
         if ctx.touched:
             # the oracle tripped over what the code under test returned
             fn = traceback.extract_tb(e.__traceback__)[-1].name
